@@ -1,10 +1,10 @@
 #!/bin/sh
-# tools/all.sh <tier> <seed>...   run every registered check at the given seeds; summary on stdout
+# tools/all.sh <tier> <seed>...   run every registered check (or those in $CHECKS) at the given seeds; summary on stdout
 tier=${1:-quick}; shift
 seeds=${*:-1}
 cd "$(dirname "$0")/.."
 for s in $seeds; do
-  for c in C01 C02 C03 C04 C05 C06 C07 C08 C09 C10 C11 C12 C13 C14 C15 C16 C17 C18 C19; do
+  for c in ${CHECKS:-C01 C02 C03 C04 C05 C06 C07 C08 C09 C10 C11 C12 C13 C14 C15 C16 C17 C18 C19}; do
     out=$(VERIF_SEED=$s /venv/bin/python -m checks.run $c --tier $tier 2>&1); rc=$?
     echo "seed=$s rc=$rc $(echo "$out" | tail -1)"
     if [ $rc -ne 0 ]; then echo "$out" | head -30; fi
